@@ -18,7 +18,24 @@ import (
 // return its operations, the real result is the same and equals the specification's (earliest valid wins,
 // published before unpublished, earliest create defines the DID).
 func C02(c *ev.Ctx) {
-	run := runResolutionTLC(c, "MC_C02", tierCfg(c, "MC_C02"), 40*time.Minute)
+	var replayed, orders, nt int64
+	// second configuration: competitors of which the EARLIER one commits back to a commitment its chain has already
+	// consumed (it is no valid candidate; the later, valid one wins) - published operations only, up to four of them
+	for _, cfg := range []string{tierCfg(c, "MC_C02"), "MC_C02_reuse_" + c.Tier + ".cfg"} {
+		c02Config(c, cfg, &replayed, &orders, &nt)
+	}
+	c.Cov.TracesValidatedAgainstImpl = orders
+	c.Cov.Evaluations = orders
+	c.Cov.DistinctNontrivial = nt
+	c.Cov.Exhaustive = true
+	c.Cov.Extra["stores"] = replayed
+	c.Cov.Rule = "every store of <= MaxOps operations (published or unpublished) over competing valid updates/recovers per commitment, duplicate creates and a deactivate, at coordinates with non-monotone transaction numbers (second configuration: <= 4 published operations over chains in which the earlier of two competitors commits back to an already consumed commitment); for each store every permutation of the store's return order is replayed through the real processor; verdict: all orders give the same view and operation lists, equal to the specification's earliest-wins result; in addition every split of the set into operations served by the stores and operations supplied through the AdditionalOperations resolution option (published ones optionally left in the store as well) must give the same result; and three consecutive resolutions over a store that hands out its internal slice (the second one with an additional operation) must leave the store as it was. Non-trivial: >= 2 candidates for one commitment, >= 2 creates, or published+unpublished mixed."
+	c.Assume = append(c.Assume, "the store order is modelled by the order of the slices handed to the processor by the published and unpublished stores")
+	c.Finish("model_checking")
+}
+
+func c02Config(c *ev.Ctx, cfg string, replayedP, ordersP, ntP *int64) {
+	run := runResolutionTLC(c, "MC_C02", cfg, 40*time.Minute)
 	kt := KeyTypeForSeed(c.Seed)
 	e := mustEngine(run.Alpha, kt, concr.SHA256)
 	cases := run.Cases
@@ -122,14 +139,9 @@ func C02(c *ev.Ctx) {
 			c.AddSample(map[string]interface{}{"ops": cs.Ops, "orders_tried": k, "real": first, "spec": cs.Res})
 		}
 	}, hangReporter(c, func(i int) interface{} { return e.Describe(cases[i].Ops) }))
-	c.Cov.TracesValidatedAgainstImpl = orders
-	c.Cov.Evaluations = orders
-	c.Cov.DistinctNontrivial = nt
-	c.Cov.Exhaustive = true
-	c.Cov.Extra["stores"] = replayed
-	c.Cov.Rule = "every store of <= MaxOps operations (published or unpublished) over competing valid updates/recovers per commitment, duplicate creates and a deactivate, at coordinates with non-monotone transaction numbers; for each store every permutation of the store's return order is replayed through the real processor; verdict: all orders give the same view and operation lists, equal to the specification's earliest-wins result; in addition every split of the set into operations served by the stores and operations supplied through the AdditionalOperations resolution option (published ones optionally left in the store as well) must give the same result; and three consecutive resolutions over a store that hands out its internal slice (the second one with an additional operation) must leave the store as it was. Non-trivial: >= 2 candidates for one commitment, >= 2 creates, or published+unpublished mixed."
-	c.Assume = append(c.Assume, "the store order is modelled by the order of the slices handed to the processor by the published and unpublished stores")
-	c.Finish("model_checking")
+	*replayedP += replayed
+	*ordersP += orders
+	*ntP += nt
 }
 
 // sharedStore hands out its internal slice (spare capacity included), like the library's mock operation store.
